@@ -5,8 +5,11 @@ S(k, v, p) == [k |-> k, v |-> v, p |-> p]
 MCCallers == {1}
 MCMethods == {"GET", "POST", "get"}
 MCBudgets == {0, 1, 2}
+MCConnHdr == ("1~close,_X-Hop-Token" :> [ver |-> "1.1", toks |-> <<"close", "X-Hop-Token">>]) @@
+             ("1~X-Close-Hint,_keep-alive" :> [ver |-> "1.1", toks |-> <<"X-Close-Hint", "keep-alive">>])
 MCOkTail == {S("ok", "cl", "-")}
-MCSteps == {S("ok", "cl", "-"), S("ok_connclose", "-", "-"), S("ok_surplus", "cl", "-"), S("ok_closedelim", "-", "-"),
+MCSteps == {S("ok", "cl", "-"), S("ok_connclose", "-", "-"), S("ok_surplus", "cl", "-"), S("ok_surplus", "cl0", "-"),
+            S("ok_conn", "1~close,_X-Hop-Token", "-"), S("ok_conn", "1~X-Close-Hint,_keep-alive", "-"), S("ok_closedelim", "-", "-"),
             S("ok_then_fin", "-", "-"), S("ok_surplus", "cl", "h_bs"), S("ok_latesurplus", "cl", "h_b_s"), S("ok_idle", "stale", "-"), S("refused", "-", "-"), S("acc_rst", "-", "-"), S("send_fail", "-", "zero"),
             S("req_close", "-", "first"), S("full_close", "-", "-"), S("silence", "-", "-"),
             S("resp_close", "cl", "body"), S("bad", "cl_te", "-")}
